@@ -250,6 +250,7 @@ func same(a string, b json.RawMessage) bool {
 //   kind "text": got = observed text, want = prescribed text followed by the texts permitted under open findings
 //   kind "num" : n = a double, got = observed JSON.stringify(n), back = projection of JSON.parse(got) observed
 //   kind "str" : s = a string, got, back likewise
+//   kind "tree": v = a JSON value tree, gap = the space argument, got = JSON.stringify(v, null, gap), back likewise
 type jrec struct {
 	ID   int             `json:"id"`
 	Kind string          `json:"kind"`
@@ -258,6 +259,8 @@ type jrec struct {
 	N    *num.N          `json:"n,omitempty"`
 	S    *[]int          `json:"s,omitempty"`
 	Back json.RawMessage `json:"back,omitempty"`
+	V    any             `json:"v,omitempty"`
+	Gap  *int            `json:"gap,omitempty"`
 
 	src, out string
 	cse, exp json.RawMessage
@@ -302,6 +305,7 @@ type checker struct {
 	qkeys   map[string]bool
 	byFam   map[string]int64
 	kept    [][]byte // generated lines kept for the binding self-test
+	spellEx []any    // examples of texts accepted as respellings
 }
 
 func (k *checker) enqueue(p *jrec) {
@@ -438,7 +442,7 @@ func Check(c *core.Ctx) (map[string]any, []string, error) {
 		runs = []runCfg{
 			{Name: "explicit-families(deep domain)", Cfg: genCfg(c, "list", 0, true)},
 			{Name: "single-mutations(all base texts)", Cfg: genCfg(c, "mut", 0, true)},
-			{Name: "double-mutations(random 300 per position)", Cfg: genCfg(c, "mut2", 300, true), Seed: c.Seed},
+			{Name: "double-mutations(random 1000 per position)", Cfg: genCfg(c, "mut2", 1000, true), Seed: c.Seed},
 		}
 	} else {
 		runs = []runCfg{
@@ -492,6 +496,9 @@ func Check(c *core.Ctx) (map[string]any, []string, error) {
 	if err := k.randomRecords(); err != nil {
 		return nil, nil, err
 	}
+	if err := k.randomTrees(); err != nil {
+		return nil, nil, err
+	}
 	k.controls()
 	jstat, err := k.judge()
 	if err != nil {
@@ -517,7 +524,7 @@ func Check(c *core.Ctx) (map[string]any, []string, error) {
 		"cases": k.n.cases, "cases_by_family": k.byFam, "evaluations": k.n.evals,
 		"conforming": k.n.conform, "conforming_to_known_deviation": k.n.dev, "non_reproducible_skipped": k.n.skipped,
 		"judged_by_specification": k.n.judged, "judged_spelling_only": k.n.spelling, "random_records_judged": k.n.rand,
-		"binding_self_test": selftest,
+		"binding_self_test": selftest, "spelling_only_examples": k.spellEx,
 		"rule": "one case per TLC state of the generator module; parse cases of the explicit families are evaluated twice (member order must be stable); judged = observed texts / recorded round trips re-read by the specification",
 	}
 	assume := []string{
@@ -545,6 +552,19 @@ func (k *checker) controls() {
 	k.enqueue(&jrec{Kind: "text", Got: u("[\n 1\n]"), Want: [][]int{u("[\n  1\n]")}, control: 1})
 	k.enqueue(&jrec{Kind: "text", Got: u(`[01]`), Want: [][]int{u(`[1]`)}, control: 1})
 	k.enqueue(&jrec{Kind: "text", Got: u(`["\x"]`), Want: [][]int{u(`["x"]`)}, control: 1})
+	one := num.Of(1)
+	tree := func(n num.N) any {
+		return map[string]any{"t": "obj", "members": []any{map[string]any{"key": []int{97}, "val": map[string]any{"t": "arr", "items": []any{
+			map[string]any{"t": "num", "n": n}, map[string]any{"t": "str", "s": []int{120}}}}}}}
+	}
+	enc := func(v any) json.RawMessage { b, _ := json.Marshal(v); return b }
+	zero := 0
+	k.enqueue(&jrec{Kind: "tree", V: tree(one), Gap: &zero, Got: u(`{"a":[1,"x"]}`), Back: enc(tree(one)), control: 2})
+	k.enqueue(&jrec{Kind: "tree", V: tree(one), Gap: &zero, Got: u(`{"a":[2,"x"]}`), Back: enc(tree(one)), control: 1})
+	k.enqueue(&jrec{Kind: "tree", V: tree(one), Gap: &zero, Got: u(`{"a":[1,"x"]}`), Back: enc(tree(num.Of(2))), control: 1})
+	k.enqueue(&jrec{Kind: "tree", V: tree(one), Gap: &zero, Got: u(`{"a": [1,"x"]}`), Back: enc(tree(one)), control: 1})
+	k.enqueue(&jrec{Kind: "num", N: &one, Got: u(`1`), Back: enc(map[string]any{"t": "num", "n": one}), control: 2})
+	k.enqueue(&jrec{Kind: "num", N: &one, Got: u(`1.5`), Back: enc(map[string]any{"t": "num", "n": one}), control: 1})
 }
 
 // judge runs C11Judge over the queued records.
@@ -560,7 +580,7 @@ func (k *checker) judge() (map[string]any, error) {
 	}
 	verdict := map[int]int{}
 	var mu sync.Mutex
-	o := tlc.Opts{SpecDir: k.c.SpecDir, Module: "C11Judge", Cfg: "INIT Init\nNEXT Next\nINVARIANT Emit\nCHECK_DEADLOCK FALSE\n",
+	o := tlc.Opts{SpecDir: k.c.SpecDir, Module: "C11Judge", Cfg: "CONSTANTS\n OpenDev = " + core.TLASet(k.c.Findings.OpenIDs()) + "\nINIT Init\nNEXT Next\nINVARIANT Emit\nCHECK_DEADLOCK FALSE\n",
 		Workers: k.c.Workers, Timeout: 30 * time.Minute, Files: map[string][]byte{"trace.ndjson": []byte(sb.String())}}
 	res, err := tlc.Run(o, func(p []byte) {
 		var v struct {
@@ -591,6 +611,9 @@ func (k *checker) judge() (map[string]any, error) {
 		switch {
 		case m == 1 && p.Kind == "text":
 			atomic.AddInt64(&k.n.spelling, 1)
+			if len(k.spellEx) < 8 {
+				k.spellEx = append(k.spellEx, map[string]any{"js": p.src, "observed_text": jsx.UnitsString(p.Got), "prescribed_text": jsx.UnitsString(p.Want[0])})
+			}
 		case m == 1:
 		case m > 1:
 			atomic.AddInt64(&k.n.dev, 1)
@@ -701,6 +724,158 @@ func (k *checker) randomRecords() error {
 		}
 		rec.Back = back.V
 		k.enqueue(rec)
+		atomic.AddInt64(&k.n.rand, 1)
+	}
+	return nil
+}
+
+// treeGen draws JSON-representable value trees (inputs only: the expected
+// text and the expected parse result are computed by TLC in C11Judge).
+type treeGen struct {
+	rng    *rand.Rand
+	consts map[string]float64
+}
+
+var keyPool = [][]int{{97}, {98}, {99}, {100}, {107, 49}, {233}, {}, {120, 32, 121}, {65}, {95}, {34}, {60}, {8232}, {122, 122}}
+
+func (g *treeGen) str() []int {
+	units := make([]int, g.rng.Intn(5))
+	for j := range units {
+		switch g.rng.Intn(8) {
+		case 0:
+			units[j] = g.rng.Intn(32)
+		case 1:
+			units[j] = []int{34, 92, 47, 60, 62, 38, 127, 8232, 8233, 233}[g.rng.Intn(10)]
+		case 2:
+			units[j] = 0x80 + g.rng.Intn(0xd800-0x80)
+		default:
+			units[j] = 32 + g.rng.Intn(95)
+		}
+	}
+	return units
+}
+
+func (g *treeGen) gen(depth int) (string, any) {
+	k := g.rng.Intn(10)
+	if depth == 0 && k >= 6 {
+		k = g.rng.Intn(6)
+	}
+	switch {
+	case k == 0:
+		return "null", map[string]any{"t": "null"}
+	case k == 1:
+		b := g.rng.Intn(2) == 0
+		return fmt.Sprint(b), map[string]any{"t": "bool", "b": b}
+	case k <= 3:
+		var f float64
+		switch g.rng.Intn(4) {
+		case 0:
+			f = float64(g.rng.Intn(2001) - 1000)
+		case 1:
+			f = float64(g.rng.Int63n(1<<40)-(1<<39)) / 8
+		case 2:
+			f = float64(g.rng.Int63n(1<<53)) * math.Pow(10, float64(g.rng.Intn(30)-15))
+		default:
+			f = math.Round(g.rng.NormFloat64()*1e5) / 1e4
+		}
+		if f == 0 {
+			f = 0 // no -0: it is not JSON-representable
+		}
+		name := fmt.Sprintf("R%d", len(g.consts))
+		g.consts[name] = f
+		return name, map[string]any{"t": "num", "n": num.Of(f)}
+	case k <= 5:
+		u := g.str()
+		return jsx.StrLit(u), map[string]any{"t": "str", "s": u}
+	case k <= 7:
+		n := g.rng.Intn(4)
+		var sb strings.Builder
+		items := []any{}
+		sb.WriteByte('[')
+		for i := 0; i < n; i++ {
+			if i > 0 {
+				sb.WriteByte(',')
+			}
+			js, enc := g.gen(depth - 1)
+			sb.WriteString(js)
+			items = append(items, enc)
+		}
+		sb.WriteByte(']')
+		return sb.String(), map[string]any{"t": "arr", "items": items}
+	default:
+		n := g.rng.Intn(4)
+		var sb strings.Builder
+		members := []any{}
+		used := map[int]bool{}
+		sb.WriteByte('{')
+		for i := 0; i < n; i++ {
+			ki := g.rng.Intn(len(keyPool))
+			if used[ki] {
+				continue
+			}
+			used[ki] = true
+			if len(members) > 0 {
+				sb.WriteByte(',')
+			}
+			js, enc := g.gen(depth - 1)
+			sb.WriteString(jsx.StrLit(keyPool[ki]) + ":" + js)
+			members = append(members, map[string]any{"key": keyPool[ki], "val": enc})
+		}
+		sb.WriteByte('}')
+		return "(" + sb.String() + ")", map[string]any{"t": "obj", "members": members}
+	}
+}
+
+// randomTrees: nested values drawn by the harness, serialised (with a gap of
+// 0..3) and re-parsed on otto; judged by TLC (C11Judge kind "tree").
+func (k *checker) randomTrees() error {
+	n := 300
+	if k.c.Thorough() {
+		n = 5000
+	}
+	rng := rand.New(rand.NewSource(k.c.Seed + 7919))
+	vm, err := newVM("")
+	if err != nil {
+		return err
+	}
+	for i := 0; i < n; i++ {
+		g := &treeGen{rng: rng, consts: map[string]float64{}}
+		lit, enc := g.gen(3)
+		for name, f := range g.consts {
+			if err := vm.Set(name, f); err != nil {
+				return err
+			}
+		}
+		gap := rng.Intn(4)
+		src := fmt.Sprintf("JSON.stringify(%s,null,%d)", lit, gap)
+		v, err := vm.Call("RUN11", nil, src)
+		if err != nil {
+			return err
+		}
+		var o outcome
+		if err := json.Unmarshal([]byte(v.String()), &o); err != nil {
+			return err
+		}
+		if o.Thr != "" || o.V.T != "str" {
+			k.c.Violate(src+" did not return a string: "+v.String(), map[string]any{"js": src, "consts": g.consts})
+			continue
+		}
+		v2, err := vm.Call("RUN11", nil, "JSON.parse("+src+")")
+		if err != nil {
+			return err
+		}
+		var back struct {
+			Thr string          `json:"thr"`
+			V   json.RawMessage `json:"v"`
+		}
+		if err := json.Unmarshal([]byte(v2.String()), &back); err != nil {
+			return err
+		}
+		if back.Thr != "" {
+			k.c.Violate("JSON.parse("+src+") throws "+back.Thr, map[string]any{"js": "JSON.parse(" + src + ")", "consts": g.consts})
+			continue
+		}
+		k.enqueue(&jrec{Kind: "tree", V: enc, Gap: &gap, Got: o.V.S, Back: back.V, src: src})
 		atomic.AddInt64(&k.n.rand, 1)
 	}
 	return nil
